@@ -4,3 +4,4 @@ import CpSpec.Mpint
 import CpSpec.Tls
 import CpSpec.Ja3
 import CpSpec.Opp
+import CpSpec.Dns
